@@ -137,10 +137,11 @@ Definition logistic_close (p z : Q) : bool := close_i p (iv_eval prec [] (logist
 Definition softmax_close (ps s : list Q) : bool :=
   Nat.eqb (length ps) (length s) &&
   forallb (fun pt => close_i (fst pt) (snd pt) tol30 0) (combine ps (softmax_i s)).
-(* |v - g^-1(z)| <= 2^-30 (1 + |g^-1(z)|) *)
+(* |v - g^-1(z)| <= 2^-30 (1 + |g^-1(z)|); for the log link the bound is relative, 2^-30 |e^z| (+ one subnormal
+   ulp), so that means of size 1e-9 are judged as strictly as means of size 1 *)
 Definition inv_link_close (l : link) (v z : Q) : bool :=
   let e1 := iv_env prec [exp_arg_e l z] in
-  close_i v (iv_eval prec e1 (mu_e l z)) tol30 tol30.
+  close_i v (iv_eval prec e1 (mu_e l z)) (match l with Log => 1 # (2 ^ 1074) | _ => tol30 end) tol30.
 
 (* the value [e] Rust computed for exp(arg): within 2^-50 relative (+ one subnormal ulp) of the truth;
    +infinity only beyond the overflow threshold *)
